@@ -104,6 +104,9 @@ class Run:
         self.seg = 0
         self.clocks = []
         self.nevents = 0
+        self.states = set()
+        self.prev_t = None
+        self.tie_run = 0
 
     # helpers used by the oracles -------------------------------------------------------
     def nodes(self):
@@ -150,6 +153,27 @@ def make_sim_class():
                 o.after(node, nxt)
             R.h.update(repr((R.step, R.t, nid, R.ev_type, R.log.seq)).encode())
             R.sig.update(("%d%s" % (nid, (R.ev_type or "?")[0])).encode())
+            # abstract state vector: per node (population, customers holding a server, blocked customers)
+            if len(R.states) < 400:
+                st = []
+                for nd in self.transitive_nodes:
+                    n = b = w = 0
+                    for lst in nd.individuals:
+                        for i in lst:
+                            n += 1
+                            if i.is_blocked:
+                                b += 1
+                            if i.server:
+                                w += 1
+                    st.append((n, w, b))
+                R.states.add(hash(tuple(st)))
+            if R.t == R.prev_t:
+                R.tie_run += 1
+            else:
+                if R.tie_run:
+                    R.counts["F1:tie_groups_of_%s" % ("2" if R.tie_run == 1 else "3" if R.tie_run == 2 else ">=4")] += 1
+                R.tie_run = 0
+            R.prev_t = R.t
             return nxt
 
     return MonSim
@@ -168,6 +192,52 @@ def classify_exception(e):
         if fn.startswith(SIM_DIR):
             return "harness", "%s@%s:%d" % (type(e).__name__, fr.name, fr.lineno)
     return "harness", "%s@?" % type(e).__name__
+
+
+def fault_counters(R):
+    """How often each fault kind actually fired in this run (measured from the history, not from the configuration)."""
+    c = R.counts
+    log = R.log
+    try:
+        for key, calls in log.samples.items():
+            kind = key[0]
+            for call in calls:
+                v = call[3]
+                if isinstance(v, (int, float)) and not isinstance(v, bool):
+                    if v == 0:
+                        c["F2:zero_%s_samples" % kind] += 1 if kind != "bat" else 0
+                        if kind == "bat":
+                            c["F4:empty_batches"] += 1
+                    elif v == INF:
+                        c["F3:streams_ended"] += 1
+        for ev in log.micro:
+            k = ev[2]
+            if k == "blk":
+                c["F7:blockings"] += 1
+            elif k == "ren":
+                c["F12:reneges"] += 1
+            elif k == "baulkq":
+                c["F12:baulk_decisions"] += 1
+        for d in log.draws:
+            if not d[3]:
+                c["F1:random_tie_breaks"] += 1
+        c["F8:pauses"] += max(0, R.seg - 1)
+        if hasattr(R, "sim") and hasattr(R.sim, "nodes"):
+            for nd in R.sim.nodes[1:]:
+                for i in nd.all_individuals:
+                    for r in i.data_records:
+                        t = r.record_type
+                        if t == "interrupted service":
+                            c["F6:interruptions"] += 1
+                        elif t == "rejection":
+                            c["F12:rejections"] += 1
+                        elif t == "baulk":
+                            c["F12:baulks"] += 1
+                for o in getattr(nd, "overtime", []) if nd is not R.sim.nodes[-1] else []:
+                    if o and o > 0:
+                        c["F6:overtime_completions"] += 1
+    except Exception:
+        c["fault_counter_errors"] += 1
 
 
 def records_of(sim):
@@ -251,7 +321,7 @@ def run_spec(S, oracle_classes, wall=20, keep=False):
     except OutOfDomain as e:
         res.update(status="discard", msg=str(e))
     except Hang:
-        res.update(status="hang", clause="hang@" + phase, msg="wall guard %ds in phase %s" % (wall, phase))
+        res.update(status="hang", prop="C14", clause="hang@" + phase, msg="wall guard %ds in phase %s" % (wall, phase))
     except Exception as e:
         who, site = classify_exception(e)
         if who == "engine" and phase in ("init", "run"):
@@ -282,6 +352,8 @@ def run_spec(S, oracle_classes, wall=20, keep=False):
         except Exception as e:
             res["probe"] = False
             res["probe_error"] = repr(e)
+    fault_counters(R)
+    res["states"] = list(R.states)
     res["step"] = R.step
     res["phase"] = phase
     res["events"] = R.nevents
